@@ -101,6 +101,15 @@ def run(ck):
     for fn, tag in ((cs, 'cli'), (PN.fn('ephemeralnet::Node::store_chunk'), 'node')):
         rz = [i for i in fn.walk() if fn.nodes[i].get('callee', '').endswith('basic_string<char>::resize')]
         ok = any(const_value(fn, fn.call_args(i)[0]) == 255 for i in rz)
+        # ... decided by the length of the very string that is shortened (not of the path it came from)
+        for i in rz:
+            if const_value(fn, fn.call_args(i)[0]) != 255:
+                continue
+            rv = declref(fn, fn.receiver(i))
+            guard = next((fn.nodes[a]['cond'] for a in fn.ancestors(i) if fn.nodes[a]['k'] == 'IfStmt'), None)
+            if guard is not None:
+                sz = [j for j in fn.walk(guard) if (fn.nodes[j].get('callee') or '').endswith('::size')]
+                ok = ok and bool(sz) and all(declref(fn, fn.receiver(j)) == rv for j in sz)
         ck.ob('C31.shape', 'C31.shape/%s/truncate-255' % tag, ok, fn.loc(), '%s truncates the suggested name to 255 bytes' % tag)
     # nothing is added to a sanitised name: the string a sanitizer works on grows from no other text
     GROW = ('operator+=', 'append', 'push_back', 'insert', 'assign', 'replace', 'operator=', 'swap', 'emplace_back')
